@@ -43,10 +43,18 @@ def encode(t):
     substitutions of As on F.
 
     """
-    # Mapping from subterms to newly introduced variables
+    # Mapping from subterms to newly introduced variables x1, x2, ... The new
+    # variables must not occur in t: an atom of t with the same name would be
+    # identified with the new variable, and the CNF would no longer be
+    # equisatisfiable with t. Indices whose name is taken are skipped.
+    used_names = set(v.name for v in t.get_vars())
     subterm_dict = dict()
-    for i, subt in enumerate(logic_subterms(t)):
-        subterm_dict[subt] = Var('x' + str(i+1), BoolType)
+    i = 0
+    for subt in logic_subterms(t):
+        i += 1
+        while 'x' + str(i) in used_names:
+            i += 1
+        subterm_dict[subt] = Var('x' + str(i), BoolType)
 
     # Collect list of equations
     eqs = []
